@@ -1,6 +1,7 @@
 (* C18 — mkarray ranges produce the exact sequence.
    Only theorem statements here; proofs live in Proof/MkArray.v. *)
-From Murex Require Import Base.Outcome Base.Bytes Model.Decimal Model.MkArray Check.C18 Proof.MkArray.
+From Murex Require Import Base.Outcome Base.Bytes Model.Decimal Model.MkArray Model.MkArrayParse Check.C18
+  Proof.MkArray Proof.MkArrayParse.
 Open Scope Z_scope.
 
 (* `[m..n]` for ALL integers m, n (texts s0, s1 that strconv.Atoi accepts):
@@ -47,24 +48,72 @@ Theorem C18_spec_is_model : forall e l, spec_expr e = Some l -> expand e = Ok l.
 Proof. exact spec_is_model. Qed.
 Print Assumptions C18_spec_is_model.
 
-(* ... so the model's observation satisfies the predicate the check evaluates,
-   for `a` and `ja` alike (same elements). *)
-Theorem C18_model_meets_spec : forall ja e, wf_expr e -> spec_ok (mk ja e) = true.
-Proof. exact model_meets_spec. Qed.
+(* ---------- the byte-level front end (parseExpression) ---------- *)
+
+(* (a) The canonical spelling of a well-formed expression — any number of comma
+   separated groups, literal prefixes / suffixes, blocks, comma lists of strings
+   and ranges — parses back to exactly that expression. *)
+Theorem C18_parse_print : forall e, wf_print e -> parse_expr (print_expr e) = Ok e.
+Proof. exact parse_print. Qed.
+Print Assumptions C18_parse_print.
+
+(* (b) For ANY byte string the parser neither panics nor hangs, ... *)
+Theorem C18_parse_expr_total : forall raw, clean (parse_expr raw).
+Proof. exact parse_expr_total. Qed.
+Print Assumptions C18_parse_expr_total.
+
+(* ... whatever it accepts has no empty block (so the odometer never indexes
+   outside a block), ... *)
+Theorem C18_parse_expr_wf : forall raw e, parse_expr raw = Ok e -> wf_expr e.
+Proof. exact parse_expr_wf. Qed.
+Print Assumptions C18_parse_expr_wf.
+
+(* ... and therefore `a <bytes>` and `ja <bytes>` never panic or hang for ANY bytes. *)
+Theorem C18_run_expr_total : forall ja raw, clean (run_expr ja raw).
+Proof. exact run_expr_total. Qed.
+Print Assumptions C18_run_expr_total.
+
+(* The model's observation on the spelling of any well-formed expression
+   satisfies the predicate the check evaluates: for `a` without restriction, ... *)
+Theorem C18_model_meets_spec : forall e, wf_print e -> spec_ok (mk false e) = true.
+Proof. exact model_meets_spec_a. Qed.
 Print Assumptions C18_model_meets_spec.
+
+(* ... for `ja` whenever the expression is not a pure number array (the full
+   statement also needs itoa (atoi s) = s on digit strings; the number array
+   mode is covered by the correspondence run, and drops empty elements:
+   known finding 1). *)
+Theorem C18_model_meets_spec_ja_partial : forall e,
+  wf_print e -> is_number_expr (print_expr e) = false -> spec_ok (mk true e) = true.
+Proof. exact model_meets_spec_ja_partial. Qed.
+Print Assumptions C18_model_meets_spec_ja_partial.
+
+Theorem C18_ja_drops_empty_refuted :
+  spec_ok (mk true [[SBlock [EStr [49%N]; EStr []; EStr [50%N]]]]) = false.
+Proof. exact ja_drops_empty_refuted. Qed.
+Print Assumptions C18_ja_drops_empty_refuted.
 
 (* Non-vacuity: "08".."11" parses, gives 08 09 10 11; p[1..2][a,b] is the product
    in odometer order; spec_ok rejects a missing end point, wrong padding and the
    first block varying fastest. *)
 Example C18_nonvacuous :
+  wf_print [[SLit [112%N]; SBlock [ERange [49%N] [50%N]]; SBlock [EStr [97%N]; EStr [98%N]]]] /\
+  parse_expr [91%N; 49%N; 92%N; 44%N; 50%N; 44%N; 51%N; 93%N] = Ok [[SBlock [EStr [49%N; 44%N; 50%N]; EStr [51%N]]]] /\
+  parse_expr [120%N; 91%N] = Err E_MISSING_CLOSE /\
   atoi [48%N; 56%N] = Some 8 /\ atoi [49%N; 49%N] = Some 11 /\
   int_range [48%N; 56%N] [49%N; 49%N] = Ok [[48%N; 56%N]; [48%N; 57%N]; [49%N; 48%N]; [49%N; 49%N]] /\
   expand [[SLit [112%N]; SBlock [ERange [49%N] [50%N]]; SBlock [EStr [97%N]; EStr [98%N]]]]
     = Ok [[112%N; 49%N; 97%N]; [112%N; 49%N; 98%N]; [112%N; 50%N; 97%N]; [112%N; 50%N; 98%N]] /\
-  spec_ok {| c_ja := false; c_expr := [[SBlock [ERange [49%N] [51%N]]]];
+  spec_ok {| c_ja := false; c_raw := print_expr [[SBlock [ERange [49%N] [51%N]]]];
+             c_expr := Some [[SBlock [ERange [49%N] [51%N]]]];
              c_obs := {| o_class := 0%N; o_items := [[49%N]; [50%N]] |} |} = false /\
-  spec_ok {| c_ja := false; c_expr := [[SBlock [ERange [48%N; 56%N] [48%N; 57%N]]]];
+  spec_ok {| c_ja := false; c_raw := print_expr [[SBlock [ERange [48%N; 56%N] [48%N; 57%N]]]];
+             c_expr := Some [[SBlock [ERange [48%N; 56%N] [48%N; 57%N]]]];
              c_obs := {| o_class := 0%N; o_items := [[56%N]; [57%N]] |} |} = false /\
-  spec_ok {| c_ja := false; c_expr := [[SBlock [ERange [49%N] [50%N]]; SBlock [EStr [97%N]; EStr [98%N]]]];
+  spec_ok {| c_ja := false; c_raw := print_expr [[SBlock [ERange [49%N] [50%N]]; SBlock [EStr [97%N]; EStr [98%N]]]];
+             c_expr := Some [[SBlock [ERange [49%N] [50%N]]; SBlock [EStr [97%N]; EStr [98%N]]]];
              c_obs := {| o_class := 0%N; o_items := [[49%N; 97%N]; [50%N; 97%N]; [49%N; 98%N]; [50%N; 98%N]] |} |} = false.
-Proof. vm_compute. repeat split; reflexivity. Qed.
+Proof.
+  split; [|vm_compute; repeat split; reflexivity].
+  unfold wf_print, wf_group. split; [discriminate|]. repeat constructor; cbn; try discriminate; try reflexivity.
+Qed.
